@@ -182,6 +182,7 @@ def run(tier, seed, replay=None):
         scripts = [rp["script"]] if "script" in rp else [witness_script()]
     else:
         scripts = [witness_script()] + gen_scripts(seed, 4000 if thorough else 480, thorough)
+    scripts = cc.staged(exe, scripts, lambda s_, g_: bool(cc.pred_c03(cc.go_view(s_, g_))))
     go, logs = cc.run_go(exe, scripts, shards=8)
     variant, diffs, counts = cc.pick_variant(scripts, go)
     if diffs is None:
@@ -201,8 +202,10 @@ def run(tier, seed, replay=None):
         evals += 1
         fam = s.get("family", "?")
         dist[fam] = dist.get(fam, 0) + 1
-        if g is None or g.get("st") in ("watchdog", "skipped"):
-            res.violation("harness-run", "no observation for script %s: %s" % (s["id"], (logs or [""])[0][-800:]), dict(kind="harness", script=s), False)
+        if g is None or g.get("st") in ("watchdog", "skipped", "crash"):
+            if "crash" not in reported:
+                reported.add("crash")
+                cc.crash_violation(res, PID, s, g)
             continue
         view = cc.go_view(s, g)
         shape = (fam, len(view["reqs"]), tuple(sorted((p["typ"] in cc.UNSOLICITED) for p in view["peer"])), len(view["frames"]))
